@@ -19,7 +19,7 @@ CHUNK = 50
 PROBES = ['same_object_abandoned_in_logs', 'tag_straddles_buffer_boundary', 'large_capture', 'special_record', 'partial_tag_prefix_before_tag', 'earlier_dump_other_parser_object', 'multi_chunk', 'empty_chunk', 'cut_inside_window', 'cut_inside_lookup', 'decoy_tag_in_stackshot', 'gap_before_event_tag',
           'header_plist_unaligned', 'two_kext_blocks', 'two_dyld_blocks', 'two_code_blocks', 'two_log_blocks', 'unpadded_last_block',
           'log_extends_tables', 'log_without_pid', 'strings_block_before_logs', 'xml_plists', 'no_blocks', 'unknown_block',
-          'log_with_tai', 'cli_run', 'log_argument_not_available', 'log_message_several_segments']
+          'log_with_tai', 'cli_run', 'two_listings_of_one_object_under_way', 'log_argument_not_available', 'log_message_several_segments']
 RULE = ('one run = one simulated v3 dump (1..3 SimKernel threads, 0..60 records in 1..5 chunks, thread map with duplicate keys, '
         'seeded metadata/log blocks) parsed by the real KdBufParser and by PyKdebugParser.kevents/os_log_events; non-trivial = '
         '>= 2 event chunks or >= 2 blocks of one list-valued kind or >= 1 log that extends the tables; distinct = distinct '
@@ -49,7 +49,7 @@ def generate(rng, index, tier):
         w['blocks'] = []
     if index % 1201 == 29:
         # a chunk holding as many records as a count the source names (+-1), and a block right above a byte size it names
-        nbig = worlds.dict_size(rng, 70000 if tier == 'quick' else 270000) or 5000
+        nbig = worlds.dict_size(rng, 70000 if tier == 'quick' else 270000, k=index // 1201) or 5000
         scn['bulk_records'] = nbig
         w['chunks'] = [rng.randrange(0, 3)] if rng.chance(0.5) else []
         bs = worlds.dict_bytesize(rng)
@@ -82,6 +82,8 @@ def generate(rng, index, tier):
         # the SAME KdBufParser object parsed another v3 dump before, and that listing was abandoned somewhere (possibly
         # in the middle of its log records)
         scn['same_object_earlier'] = {'writer': worlds.gen_writer(rng, 3, threads, 3, logs=True), 'after': rng.randint(0, 12)}
+        if rng.chance(0.4):
+            scn['same_object_earlier'].update({'overlap': True, 'after': rng.randint(1, 2)})
         scn['api'] = 'kd'
     if nrec >= 2 and rng.chance(0.12):
         scn['align'] = rng.randint(1, 7)       # place a chunk boundary tag 1..7 bytes before a multiple of the I/O buffer size
@@ -212,10 +214,13 @@ def execute(scn):
         edata, _ = worlds.build_file(scn['earlier_writer'], rb[:3])
         common.drain(lambda: tool.kdbuf_mod.KdBufParser({}, {}).parse(SimReader(edata)))
     tp, pn = {}, {}
+    tables_after_kevents = None
+    overlap = False
     if scn.get('api') == 'pk':
         pk = tool.pk_mod.PyKdebugParser()
         tp, pn = pk.threads_pids, pk.pids_names
         evs, exc = common.drain(lambda: pk.kevents(SimReader(data)))
+        tables_after_kevents = (dict(tp), dict(pn))        # the event listing read the whole dump: logs extended the tables
         logs, exc2 = common.drain(lambda: pk.os_log_events(SimReader(data)))
         items = list(evs) + list(logs)
         exc = exc or exc2
@@ -239,7 +244,25 @@ def execute(scn):
                 scn_hold = it
             except Exception:
                 pass
-        items, exc = common.drain(lambda: kd.parse(SimReader(data)))
+        if so and so.get('overlap') and 'scn_hold' in locals():
+            # both listings of the one object are under way at once: the judged one is created and pulled once, then the earlier
+            # one is read to its end, then the judged one (whatever finishes last is what the object's attributes describe)
+            bump('probe:two_listings_of_one_object_under_way')
+            bump('fault:pending_request')
+            overlap = True
+            items, exc = [], None
+            try:
+                jit = iter(kd.parse(SimReader(data)))
+                x = next(jit, None)
+                if x is not None:
+                    items.append(x)
+                common.drain(scn_hold)
+                rest, exc = common.drain(jit)
+                items += rest
+            except Exception as e:
+                exc = e
+        else:
+            items, exc = common.drain(lambda: kd.parse(SimReader(data)))
     has_tai = any('tai' in ev for b in blocks if b['kind'] == 'logs' for ev in b['payload']['Events'])
     if has_tai:
         bump('probe:log_with_tai')
@@ -307,7 +330,14 @@ def execute(scn):
             bump('probe:log_extends_tables')
         if m1[3]:
             bump('probe:log_without_pid')
-        if (tp, pn) != (m1[0], m1[1]) and (tp, pn) != (m0[0], m0[1]):
+        if tables_after_kevents is not None and tables_after_kevents != (m1[0], m1[1]) and tables_after_kevents != (m0[0], m0[1]):
+            tk, pk_ = tables_after_kevents
+            d = {k: (tk.get(k), m1[0].get(k)) for k in set(tk) | set(m1[0]) if tk.get(k) != m1[0].get(k)}
+            d2 = {k: (pk_.get(k), m1[1].get(k)) for k in set(pk_) | set(m1[1]) if pk_.get(k) != m1[1].get(k)}
+            bad('tables', 'after-event-listing', 'after kevents() alone: tid->(got, want) %r; pid->(got, want) %r' % (d, d2))
+        if overlap:
+            pass          # the earlier listing's own logs extended the shared tables after the judged thread map was applied
+        elif (tp, pn) != (m1[0], m1[1]) and (tp, pn) != (m0[0], m0[1]):
             d = {k: (tp.get(k), m1[0].get(k)) for k in set(tp) | set(m1[0]) if tp.get(k) != m1[0].get(k)}
             d2 = {k: (pn.get(k), m1[1].get(k)) for k in set(pn) | set(m1[1]) if pn.get(k) != m1[1].get(k)}
             bad('tables', 'threads' if d else 'names', 'tid->(got, want) %r; pid->(got, want) %r' % (d, d2))
